@@ -6,12 +6,12 @@ open Jwt.Generated
 
 /-- `jwt_alg_str`: the `switch`; `none` = `default: return NULL` -/
 def algStr (a : Alg) : Option Bytes :=
-  (algStrTable.find? (·.1 = a)).map (fun p => strBytes p.2)
+  (algStrTable.find? (·.1 = a)).map (·.2)
 
 /-- the `if (!jwt_strcmp(alg, "…")) return …; else if …` chain, first match wins -/
-def strAlgChain : List (Alg × String) → Bytes → Alg
+def strAlgChain : List (Alg × Bytes) → Bytes → Alg
   | [], _ => .inval
-  | (a, s) :: rest, x => if jwtStrcmp x (strBytes s) = 0 then a else strAlgChain rest x
+  | (a, s) :: rest, x => if jwtStrcmp x s = 0 then a else strAlgChain rest x
 
 /-- `jwt_str_alg(alg)`; `none` = NULL pointer -/
 def strAlg : Option Bytes → Alg
